@@ -24,6 +24,112 @@ from . import c04
 LEVEL = "other"
 
 
+def _single_def(fn, name, before=None):
+    """the expression bound to a local: the only binding, or (with `before`) the nearest binding above that line; None when unclear"""
+    defs = []
+    for n in ast.walk(fn):
+        if isinstance(n, ast.Assign):
+            for t in n.targets:
+                if isinstance(t, ast.Name) and t.id == name:
+                    defs.append((n.lineno, n.value))
+                elif isinstance(t, (ast.Tuple, ast.List)) and any(isinstance(e, ast.Name) and e.id == name for e in t.elts):
+                    defs.append((n.lineno, ("unpack", [isinstance(e, ast.Name) and e.id == name for e in t.elts].index(True), n.value)))
+        elif isinstance(n, ast.NamedExpr) and isinstance(n.target, ast.Name) and n.target.id == name:
+            defs.append((n.lineno, n.value))
+        elif isinstance(n, ast.AugAssign) and isinstance(n.target, ast.Name) and n.target.id == name:
+            defs.append((n.lineno, None))
+        elif isinstance(n, (ast.For, ast.comprehension)) and any(isinstance(e, ast.Name) and e.id == name for e in ast.walk(n.target)):
+            defs.append((getattr(n, "lineno", 0), ("each", n.iter)))
+    if len(defs) == 1:
+        return defs[0][1]
+    if before is not None:
+        prior = sorted((ln, i) for i, (ln, _) in enumerate(defs) if ln < before)
+        if prior:
+            return defs[prior[-1][1]][1]
+    return None
+
+
+def token_spelling_sites(ctx, rid):
+    """Every token is made from (type, spelling, offset) where the spelling is the input text AT that offset:
+    a slice text[offset:...], a constant the text was tested to start with at that offset, or the regex / fixed-literal match taken at that offset."""
+    lx = S.module("c_lexer")
+    sites = []
+    for mname, fn in lx.methods("CLexer").items():
+        for c in ast.walk(fn):
+            if isinstance(c, ast.Call) and isinstance(c.func, ast.Attribute) and c.func.attr == "_make_token":
+                sites.append((mname, fn, c))
+    if len(sites) < 4:
+        raise AnalysisError(f"only {len(sites)} _make_token call sites found (confirmed by reading: 4)")
+
+    def is_text(e, fn):
+        if isinstance(e, ast.Attribute) and e.attr == "_lexdata":
+            return True
+        if isinstance(e, ast.Name):
+            d = _single_def(fn, e.id)
+            return isinstance(d, ast.AST) and is_text(d, fn)
+        return False
+
+    def same_pos(p, q, fn):
+        if S.unparse(p) == S.unparse(q):
+            return True
+        for x, y in ((p, q), (q, p)):
+            if isinstance(x, ast.Name):
+                d = _single_def(fn, x.id)
+                if isinstance(d, ast.AST) and S.unparse(d) == S.unparse(y):
+                    return True
+        return False
+
+    for mname, fn, c in sites:
+        if len(c.args) != 3:
+            raise AnalysisError(f"{mname}: _make_token call with {len(c.args)} positional arguments")
+        _T, V, P = c.args
+        why = None
+        v = V
+        if isinstance(v, ast.Name):
+            d = _single_def(fn, v.id)
+            if isinstance(d, ast.AST):
+                v = d
+        if isinstance(v, ast.Subscript) and isinstance(v.slice, ast.Slice) and is_text(v.value, fn) and v.slice.lower is not None and v.slice.step is None:
+            if same_pos(v.slice.lower, P, fn):
+                why = "spelling is the input slice starting at the stamped offset"
+        elif isinstance(v, ast.Constant) and isinstance(v.value, str):
+            for g in ast.walk(fn):
+                if isinstance(g, ast.Call) and isinstance(g.func, ast.Attribute) and g.func.attr == "startswith" and is_text(g.func.value, fn) and len(g.args) == 2 \
+                        and isinstance(g.args[0], ast.Constant) and g.args[0].value == v.value and same_pos(g.args[1], P, fn) and g.lineno <= c.lineno:
+                    why = "constant spelling tested with text.startswith(..., offset)"
+                if isinstance(g, ast.Match) and isinstance(g.subject, ast.Subscript) and is_text(g.subject.value, fn) and same_pos(g.subject.slice, P, fn):
+                    for case in g.cases:
+                        if isinstance(case.pattern, ast.MatchValue) and isinstance(case.pattern.value, ast.Constant) and case.pattern.value.value == v.value and any(x is c for st in case.body for x in ast.walk(st)):
+                            why = "constant spelling matched by `match text[offset]`"
+        elif isinstance(V, ast.Name):
+            d = _single_def(fn, V.id, before=c.lineno)
+            if isinstance(d, tuple) and d[0] == "unpack" and isinstance(d[2], ast.Name):
+                idx, acc = d[1], d[2].id
+                comps = [(a_.lineno, a_.value.elts[idx]) for a_ in ast.walk(fn) if isinstance(a_, ast.Assign) and isinstance(a_.value, ast.Tuple) and len(a_.value.elts) > idx and any(isinstance(t, ast.Name) and t.id == acc for t in a_.targets)]
+                good = bool(comps)
+                for ln_, e in comps:
+                    e2 = e
+                    if isinstance(e2, ast.Name):
+                        dd = _single_def(fn, e2.id, before=ln_)
+                        e2 = dd if isinstance(dd, ast.AST) else e2
+                    if isinstance(e2, ast.Call) and isinstance(e2.func, ast.Attribute) and e2.func.attr == "group" and isinstance(e2.func.value, ast.Name):
+                        md = _single_def(fn, e2.func.value.id)
+                        good &= isinstance(md, ast.Call) and S.unparse(md.func).endswith("_regex_master.match") and len(md.args) == 2 and is_text(md.args[0], fn) and same_pos(md.args[1], P, fn)
+                    elif isinstance(e2, ast.Attribute) and e2.attr == "literal":
+                        lit = S.unparse(e2)
+                        good &= any(isinstance(g, ast.Call) and isinstance(g.func, ast.Attribute) and g.func.attr == "startswith" and is_text(g.func.value, fn) and len(g.args) == 2 and S.unparse(g.args[0]) == lit and same_pos(g.args[1], P, fn)
+                                    for g in ast.walk(fn))
+                    else:
+                        good = False
+                if good:
+                    why = "spelling is the regex match / fixed literal found at the stamped offset"
+        ok = why is not None
+        ctx.oblige(rid, f"{mname}: {S.unparse(c)[:70]}", ok, sample={"rule": rid, "function": mname, "token construction": S.unparse(c)[:90], "verdict": why or "spelling and offset are not tied together"})
+        if not ok:
+            ctx.violation(rid, f"spelling-offset:{mname}:{S.unparse(c.args[0])[:30]}", f"{mname}: `{S.unparse(c)[:100]}` - the spelling `{S.unparse(V)[:50]}` is not the input text starting at the offset `{S.unparse(P)}` it is stamped with "
+                          "(expected: text[offset:...], a constant tested at that offset, or the match taken at that offset): value or column can disagree with the input", file=lx.rel, function=f"CLexer.{mname}", line=c.lineno, construct=S.unparse(c)[:160])
+
+
 def check(ctx):
     for rid, text in (("R-C09.1", "maximal munch for all strings; punctuators; spelling = matched slice"), ("R-C09.2", "fixed-token bucket discipline"),
                       ("R-C09.3", "identifier classification order"), ("R-C09.4", "line / column bookkeeping across newlines"),
@@ -55,17 +161,8 @@ def check(ctx):
         ctx.oblige("R-C09.1", f"punctuator {p}", ok, nontrivial=len(p) > 1)
         if not ok:
             viol("R-C09.1", f"punct:{p}", f"punctuator `{p}` is tokenised as {res} (expected one {want[0] if want else '?'} token of length {len(p)})", "_fixed_tokens")
+    token_spelling_sites(ctx, "R-C09.1")
     mt = lx.method("CLexer", "_match_token")
-    srcs = {S.unparse(n.value) for n in ast.walk(mt) if isinstance(n, ast.Assign) and any(isinstance(t, ast.Name) and t.id == "value" for t in n.targets)}
-    ok = srcs == {"m.group(tok_type)"} and any(isinstance(n, ast.Attribute) and n.attr == "literal" for n in ast.walk(mt))
-    ctx.oblige("R-C09.1", "token value = matched slice / fixed literal", ok, sample={"rule": "R-C09.1", "value sources": sorted(srcs)})
-    if not ok:
-        viol("R-C09.1", "value-source", f"a token's value must be exactly the text matched (m.group(tok_type)) or the fixed literal; found {sorted(srcs)}", "CLexer._match_token", mt)
-    calls = [c for c in ast.walk(mt) if isinstance(c, ast.Call) and getattr(c.func, "attr", "") == "_make_token"]
-    ok = len(calls) == 1 and [S.unparse(x) for x in calls[0].args] == ["tok_type", "value", "pos"]
-    ctx.oblige("R-C09.1", "_make_token(tok_type, value, start offset)", ok)
-    if not ok:
-        viol("R-C09.1", "make-token-args", "the token must be made from (tok_type, value, pos) with pos the start offset", "CLexer._match_token", mt)
 
     # ---- R-C09.2 ------------------------------------------------------------------
     allfixed = set(m.t.fixed_tokens)
